@@ -412,15 +412,17 @@ META["C09"] = {
     "RULE": ("One evaluation = one seeded simulated run (forced history with rejections, checkpoints, dynamic/MLE/no calibration, "
              "IWP / Ornstein-Uhlenbeck / Matern prior, three factorisations for IWP) during which every executed "
              "prior.transition(dt, scale) is compared with the exact discretisation (1e-9 in Nordsieck coordinates; closed form or "
-             "50-digit Van-Loan expm); sub-transitions at every checkpoint split are merged and compared with the whole step; a "
+             "50-digit Van-Loan expm); sub-transitions at every checkpoint split are merged and compared with the whole step; for "
+             "exponential priors all five Pade/Legendre orders are evaluated on the run's scaled matrices (1e-9); a "
              "twin prior with base scale c*Lambda must scale the process noise by c^2. Distinct = distinct (cell, history digest); "
              "non-trivial = at least 3 transitions were checked."),
     "COMPONENTS": {"real": ["DenseWienerIntegrated / Isotropic / BlockDiag transition()", "DenseExponential.transition (Pade/Legendre order 9 + doubling)",
                             "preconditioner_taylor", "system_matrices_1d_iwp / cholesky_hilbert", "LatentCond.merge (composition)"],
                    "stub": [], "seam": ["transition() wrapper installed for the duration of a run (in-run monitor)", "flow seam"]},
     "PROBES": ["transitions_checked", "exponential_prior", "q>=6", "checkpoint_splits_composed", "twin_base_scale", "pade_orders_probed"],
-    "ASSUMPTIONS": ["partial: step sizes and scales are those the simulated runs reach (h in [1e-4, 0.5], q<=8, d<=3, float64, "
-                    "Pade/Legendre order 9 only); orders 3/5/7/13 and float32 are unreachable through float64 solves and are NOT covered"],
+    "ASSUMPTIONS": ["partial: step sizes and scales are those the simulated runs reach (h in [1e-4, 0.5], q<=8, d<=3, float64); all five "
+                    "Pade/Legendre orders are probed on the scaled drift/dispersion matrices of run transitions (|A|_1 up to ~5), float32 "
+                    "is NOT covered"],
     "LEVEL_TEXT": "In-run invariant monitor: every prior discretisation executed by seeded simulated runs is compared with the exact "
                   "SDE discretisation; composition is probed at checkpoint splits. Partial by construction.",
     "LEVEL_NOTE": "Trusted: sim/refmodel.py priors (closed-form IWP, mp.expm Van-Loan).",
